@@ -59,6 +59,47 @@ specs["C20"] = {"property": "C20",
       {"name": "bmc", "pkg": "loglimiter", "harness": "loglimiter", "entry": "ZZ_C20_bmc", "grid": {"K": [5]}, "grid_thorough": {"K": [8]}, "stubs": {"log.Print": "zzLogPrint"}}
     ]}
 
+def thr_jobs():
+    cfgs = [  # name, bucketS, refillNs, minSec, fps, fi, pow2, quick
+        ("a", 3, 2**33, 1, 8, 2**30, True, True),
+        ("b", 2, 2**33, 1, 1, 2**33, True, True),
+        ("c", 1, 7 * 10**9, 1, 1, 7 * 10**9, False, True),
+        ("d", 600, 600 * 10**9, 15, 9, 4444444444, False, False),
+        ("e", 2, 3 * 10**9, 1, 2, 1500000000, False, False),
+        ("f", 10, 5 * 2**30, 3, 1, 1789569706, False, False),
+    ]
+    jobs = []
+    for (nm, b, r, m, f, fi, pow2, quick) in cfgs:
+        g = {"bucketS": [b], "refillNs": [r], "minSec": [m], "fps": [f], "fi": [fi]}
+        jobs.append({"name": "step_" + nm, "pkg": "throttle", "harness": "throttle", "entry": "ZZ_T_step", "grid": g,
+                     "solvers": ["z3-new", "cvc5int", "cvc5"] if pow2 else ["cvc5int", "z3-new"], "timeout": 120,
+                     "tier": "" if quick else "thorough"})
+    for (nm, b, r, m, f, fi, pow2, quick) in cfgs:
+        if b * f > 4:
+            continue
+        g = dict({"bucketS": [b], "refillNs": [r], "minSec": [m], "fps": [f], "fi": [fi]})
+        gq = dict(g); gq["K"] = [8 if pow2 else 6]
+        gt = dict(g); gt["K"] = [10 if pow2 else 7]
+        jobs.append({"name": "bmc_" + nm, "pkg": "throttle", "harness": "throttle", "entry": "ZZ_T_bmc", "grid": gq, "grid_thorough": gt,
+                     "solvers": ["z3-new", "cvc5int"] if pow2 else ["cvc5int", "z3-new"], "timeout": 300,
+                     "tier": "" if quick else "thorough"})
+    return jobs
+
+THR_EXPL = ("Bounded symbolic verification of throttle/throttled_recorder.go together with the real github.com/juju/ratelimit token bucket (SSA->SMT). "
+            "(1) Potential-function step lemma: from an arbitrary invariant state (symbolic availableTokens, latestTick, current tick, recording flag, frames since the wrapped start) "
+            "one request in {Start, Write, Stop} is executed with each clock read returning an arbitrary later instant k*fillInterval+r; it proves that forwarded frames are paid for by the potential "
+            "Psi = min(cap, a+(T-l)*quantum) + [a=cap and T>l], that the invariant is preserved, and the C06 behaviour (forwarding iff Available >= minimum clip, clean cut, pairing, one event per suppressed start or cut, remembered background/threshold on restart). "
+            "Telescoping the potential inequality over any interval gives frames <= cap + 1 + ticks*quantum <= bucket + refill earned + 2 (paper step). "
+            "(2) BMC: K well-formed client requests from the real constructor with arbitrary clock advances; the interval bound is asserted directly for every sub-interval (no potential function). "
+            "Constructor facts (capacity = bucket-size*fps, min clip = minSeconds*fps, quantum 1, rate within 1%) are evaluated on the concrete constructor result per configuration.")
+THR_ASSUME = COMMON_ASSUME + ["well-formed client (Start only when the client has no recording, Write/Stop only inside one): that is what MotionProcessor issues (C12)",
+    "clock instants non-decreasing, ticks < 2^20 in the step lemma (2^44 ns advances in BMC)", "configurations are concrete per job (they size the bucket and fix fillInterval); quantum = 1 asserted for each",
+    "the telescoping from the per-step potential inequality to the interval statement is a paper argument (DESIGN.md C05)"]
+THR_OUT = ["configurations outside the job grid", "ThrottledEventRecorder's D-Bus call (I/O)", "the main.go wiring of minSeconds = MinSecs+PreviewSecs (claimed in the wiring job once built)"]
+THR_STUBS = ["ratelimit.Clock -> harness clock handing out pre-drawn non-decreasing instants", "wrapped recorder.Recorder and ThrottledEventListener -> monitored stubs (injection interfaces)", "log.Print* -> no-op"]
+for pid in ["C05", "C06"]:
+    specs[pid] = {"property": pid, "explanation": THR_EXPL, "assumptions": THR_ASSUME, "outside_claim": THR_OUT, "stubs_doc": THR_STUBS, "jobs": thr_jobs()}
+
 os.makedirs("/verif/checks", exist_ok=True)
 for pid, sp in specs.items():
     json.dump(sp, open(f"/verif/checks/{pid}.json", "w"), indent=1)
